@@ -517,6 +517,94 @@ Qed.
 Definition read_sees (st : store) (k : rid) (gv : str) (r' : resource) : Prop :=
   snd (step st (ORead k gv [])) = OutRes r' \/ snd (step st (ORead k gv [])) = OutGVM r'.
 
+(* ---------- where an event comes from: the row it carries was the stored row at an earlier point ---------- *)
+Lemma event_row_point st0 a n e :
+  clean st0 -> NoDup (keys (s_res st0)) -> forallb no_restore a = true -> (List.length (s_watches st0) <= n)%nat ->
+  snd (step (run st0 a) (ONext n)) = OutEvent e ->
+  match e with
+  | Upsert r => exists a1 a2, a = a1 ++ a2 /\ lk (r_id r) (run st0 a1) = Some r
+  | Delete r => exists a1 o a2, a = a1 ++ o :: a2 /\ lk (r_id r) (run st0 a1) = Some r /\
+                                lk (r_id r) (fst (step (run st0 a1) o)) = None
+  | EndOfSnapshot => True
+  end.
+Proof.
+  intros Hclean Hnd Hnr0 Hge Hout.
+  assert (Hnr : forallb no_restore (a ++ [ONext n]) = true) by (rewrite forallb_app, Hnr0; reflexivity).
+  assert (Hin : In e (deliv n st0 (a ++ [ONext n]))).
+  { assert (G : forall st, snd (step (run st a) (ONext n)) = OutEvent e -> In e (deliv n st (a ++ [ONext n]))); [|apply G; exact Hout].
+    clear. induction a as [|o a IH]; intros st0 Hout; cbn [app deliv].
+    - unfold next_of. cbn [run] in Hout. rewrite Hout, Nat.eqb_refl. left; reflexivity.
+    - apply in_app_iff. right. apply IH. exact Hout. }
+  pose proof (delivered_committed st0 _ n e Hclean Hnr Hge Hin) as Hc.
+  assert (Hgl : glog st0 (a ++ [ONext n]) = glog st0 a) by (rewrite glog_app; cbn; apply app_nil_r).
+  rewrite Hgl in Hc. destruct e as [r|r|]; [| |exact I].
+  - destruct Hc as [Hc|Hc].
+    + exists [], a. split; [reflexivity|]. cbn. unfold lk. apply in_lookup; assumption.
+    + apply glog_event_state in Hc as (a1 & o & a2 & -> & Hce). exists (a1 ++ [o]), a2. rewrite <- app_assoc. split; [reflexivity|].
+      rewrite run_app. cbn [run]. apply commit_upsert_row. exact Hce.
+  - apply glog_event_state in Hc as (a1 & o & a2 & Ha & Hce). apply commit_delete_row in Hce as [Hl Hl'].
+    exists a1, o, a2. auto.
+Qed.
+
+(* Store.Read in terms of the stored row, uid-qualified reads included *)
+Lemma read_spec st k gv uid :
+  snd (step st (ORead k gv uid)) =
+  match lk k st with
+  | None => OutErr ENotFound
+  | Some r => if negb (str_eqb uid []) && negb (str_eqb (r_uid r) uid) then OutErr ENotFound
+              else if negb (str_eqb gv (r_gv r)) then OutGVM r else OutRes r
+  end.
+Proof. reflexivity. Qed.
+
+Lemma read_stale_uid_notfound st k gv uid r :
+  lk k st = Some r -> uid <> [] -> uid <> r_uid r -> snd (step st (ORead k gv uid)) = OutErr ENotFound.
+Proof.
+  intros Hl H1 H2. rewrite read_spec, Hl. apply str_eqb_neq in H1. rewrite H1.
+  assert (str_eqb (r_uid r) uid = false) as -> by (apply str_eqb_neq; congruence). reflexivity.
+Qed.
+
+(* ================= the row after an event (inmem.Backend path) ================= *)
+Theorem row_after_event st0 a n e b :
+  clean st0 -> vb st0 -> NoDup (keys (s_res st0)) ->
+  forallb backend_op (a ++ ONext n :: b) = true -> (List.length (s_watches st0) <= n)%nat ->
+  let s1 := run st0 a in
+  snd (step s1 (ONext n)) = OutEvent e ->
+  let s2 := run (fst (step s1 (ONext n))) b in
+  match e with
+  | Upsert r =>
+      exists a1 a2, a = a1 ++ a2 /\ lk (r_id r) (run st0 a1) = Some r /\
+        match lk (r_id r) s2 with
+        | Some r' => r_version r <= r_version r'
+        | None => exists c1 d c2, a2 ++ ONext n :: b = c1 ++ d :: c2 /\ effective_delete (run (run st0 a1) c1) d (r_id r)
+        end
+  | Delete r => match lk (r_id r) s2 with Some r' => r_version r < r_version r' | None => True end
+  | EndOfSnapshot => True
+  end.
+Proof.
+  intros Hclean Hvb Hnd Hb Hge s1 Hout s2.
+  assert (Hnra : forallb no_restore a = true).
+  { rewrite forallb_forall in *. intros o Ho. apply backend_no_restore. apply Hb. apply in_app_iff. auto. }
+  pose proof (event_row_point st0 a n e Hclean Hnd Hnra Hge Hout) as Hp.
+  assert (Hs2 : forall a1 a2, a = a1 ++ a2 -> s2 = run (run st0 a1) (a2 ++ ONext n :: b)).
+  { intros a1 a2 ->. unfold s2, s1. rewrite !run_app. reflexivity. }
+  assert (Hbk : forall a1 a2, a = a1 ++ a2 -> forallb backend_op a1 = true /\ forallb backend_op (a2 ++ ONext n :: b) = true).
+  { intros a1 a2 ->. rewrite <- app_assoc, forallb_app in Hb. apply andb_true_iff in Hb. exact Hb. }
+  destruct e as [r|r|]; [| |exact I].
+  - destruct Hp as (a1 & a2 & Ha & Hl). exists a1, a2. split; [exact Ha|]. split; [exact Hl|].
+    destruct (Hbk a1 a2 Ha) as [Hb1 Hb2]. rewrite (Hs2 a1 a2 Ha).
+    exact (row_monotone (r_id r) r (a2 ++ ONext n :: b) (run st0 a1) (run_vb _ _ Hb1 Hvb) Hl Hb2).
+  - destruct Hp as (a1 & o & a2 & Ha & Hl & Hl').
+    assert (Ha' : a = (a1 ++ [o]) ++ a2) by (rewrite <- app_assoc; exact Ha).
+    destruct (Hbk _ _ Ha') as [Hb1 Hb2]. rewrite forallb_app in Hb1. apply andb_true_iff in Hb1 as [Hb1 Hbo]. cbn in Hbo.
+    assert (Hvb1 : vb (run st0 a1)) by (apply run_vb; assumption).
+    assert (Hab : above (r_id r) (r_version r) (fst (step (run st0 a1) o))).
+    { pose proof (step_vsn_mono (run st0 a1) o). pose proof (Hvb1 _ _ Hl). split; [lia|]. intros x Hx. congruence. }
+    apply (run_above _ _ (a2 ++ ONext n :: b)) in Hab; [|assumption].
+    assert (Es2 : s2 = run (fst (step (run st0 a1) o)) (a2 ++ ONext n :: b)).
+    { rewrite (Hs2 _ _ Ha'). rewrite (run_app st0 a1 [o]). reflexivity. }
+    rewrite <- Es2 in Hab. destruct Hab as [_ Hab]. destruct (lk (r_id r) s2) as [r'|]; [apply Hab; reflexivity|exact I].
+Qed.
+
 (* ================= C18_read_after_event ================= *)
 Theorem read_after_event st0 a n e b gv :
   clean st0 -> vb st0 -> NoDup (keys (s_res st0)) ->
@@ -536,45 +624,12 @@ Theorem read_after_event st0 a n e b gv :
   end.
 Proof.
   intros Hclean Hvb Hnd Hb Hge s1 Hout s2.
-  assert (Hnr : forallb no_restore (a ++ [ONext n]) = true).
-  { rewrite forallb_forall in *. intros o Ho. apply backend_no_restore. apply Hb. apply in_app_iff in Ho as [Ho|[<-|[]]]; apply in_app_iff; [left|right; left]; auto. }
-  assert (Hin : In e (deliv n st0 (a ++ [ONext n]))).
-  { assert (G : forall st, snd (step (run st a) (ONext n)) = OutEvent e -> In e (deliv n st (a ++ [ONext n]))); [|apply G; exact Hout].
-    clear. induction a as [|o a IH]; intros st0 Hout; cbn [app deliv].
-    - unfold next_of. cbn [run] in Hout. rewrite Hout, Nat.eqb_refl. left; reflexivity.
-    - apply in_app_iff. right. apply IH. exact Hout. }
-  pose proof (delivered_committed st0 _ n e Hclean Hnr Hge Hin) as Hc.
-  assert (Hgl : glog st0 (a ++ [ONext n]) = glog st0 a).
-  { rewrite glog_app. cbn. apply app_nil_r. }
-  rewrite Hgl in Hc.
-  assert (Hs2 : forall a1 a2, a = a1 ++ a2 -> s2 = run (run st0 a1) (a2 ++ ONext n :: b)).
-  { intros a1 a2 ->. unfold s2, s1. rewrite !run_app. reflexivity. }
-  assert (Hbk : forall a1 a2, a = a1 ++ a2 -> forallb backend_op a1 = true /\ forallb backend_op (a2 ++ ONext n :: b) = true).
-  { intros a1 a2 ->. rewrite <- app_assoc, forallb_app in Hb. apply andb_true_iff in Hb. exact Hb. }
+  pose proof (row_after_event st0 a n e b Hclean Hvb Hnd Hb Hge Hout) as H. fold s1 s2 in H. cbn zeta in H.
   destruct e as [r|r|]; [| |exact I].
-  - (* the row was r at some point of the run (or at its start) *)
-    assert (Hpt : exists a1 a2, a = a1 ++ a2 /\ lk (r_id r) (run st0 a1) = Some r).
-    { destruct Hc as [Hc|Hc].
-      - exists [], a. split; [reflexivity|]. cbn. unfold lk. apply in_lookup; assumption.
-      - apply glog_event_state in Hc as (a1 & o & a2 & -> & Hce). exists (a1 ++ [o]), a2. rewrite <- app_assoc. split; [reflexivity|].
-        rewrite run_app. cbn [run]. apply commit_upsert_row. exact Hce. }
-    destruct Hpt as (a1 & a2 & Ha & Hl). destruct (Hbk a1 a2 Ha) as [Hb1 Hb2].
-    pose proof (row_monotone (r_id r) r (a2 ++ ONext n :: b) (run st0 a1) (run_vb _ _ Hb1 Hvb) Hl Hb2) as Hm.
-    rewrite <- (Hs2 a1 a2 Ha) in Hm. pose proof (read_row s2 (r_id r) gv) as Hr.
+  - destruct H as (a1 & a2 & Ha & Hl & H). pose proof (read_row s2 (r_id r) gv) as Hr.
     destruct (lk (r_id r) s2) as [r'|].
-    + left. exists r'. split; [exact Hr|exact Hm].
-    + right. split; [exact Hr|]. destruct Hm as (c1 & d & c2 & Hc12 & Hd).
+    + left. exists r'. split; [exact Hr|exact H].
+    + right. split; [exact Hr|]. destruct H as (c1 & d & c2 & Hc12 & Hd).
       exists (a1 ++ c1), d, c2. rewrite run_app. split; [|exact Hd]. rewrite Ha, <- !app_assoc, <- Hc12. reflexivity.
-  - apply glog_event_state in Hc as (a1 & o & a2 & Ha & Hce). apply commit_delete_row in Hce as [Hl Hl'].
-    assert (Ha' : a = (a1 ++ [o]) ++ a2) by (rewrite <- app_assoc; exact Ha).
-    destruct (Hbk _ _ Ha') as [Hb1 Hb2]. rewrite forallb_app in Hb1. apply andb_true_iff in Hb1 as [Hb1 Hbo]. cbn in Hbo.
-    assert (Hvb1 : vb (run st0 a1)) by (apply run_vb; assumption).
-    assert (Hab : above (r_id r) (r_version r) (fst (step (run st0 a1) o))).
-    { pose proof (step_vsn_mono (run st0 a1) o). pose proof (Hvb1 _ _ Hl). split; [lia|]. intros x Hx. congruence. }
-    apply (run_above _ _ (a2 ++ ONext n :: b)) in Hab; [|assumption].
-    assert (Es2 : s2 = run (fst (step (run st0 a1) o)) (a2 ++ ONext n :: b)).
-    { rewrite (Hs2 _ _ Ha'). rewrite (run_app st0 a1 [o]). reflexivity. }
-    rewrite <- Es2 in Hab.
-    destruct Hab as [_ Hab]. pose proof (read_row s2 (r_id r) gv) as Hr.
-    destruct (lk (r_id r) s2) as [r'|]; [left; exists r'; split; [exact Hr|apply Hab; reflexivity]|right; exact Hr].
+  - pose proof (read_row s2 (r_id r) gv) as Hr. destruct (lk (r_id r) s2) as [r'|]; [left; exists r'; split; [exact Hr|exact H]|right; exact Hr].
 Qed.
